@@ -5,6 +5,7 @@ import SplVerif.Props.C06
 import SplVerif.Props.C18
 import SplVerif.Model.Table
 import SplVerif.Props.C07
+import SplVerif.Lemmas.Total
 
 namespace Spl.C02
 
@@ -45,5 +46,24 @@ theorem tokenRange_ok (toks : Array Token) (r : Range) (_h1 : r.lo ≤ r.hi) (h2
       have : r.hi - 1 < toks.size := by omega
       simp [this]
     rw [a, b]; exact ⟨_, rfl⟩
+
+/-- **The parser never panics, for any token sequence whatsoever**: no parser of the model runs out
+    of fuel (the recursive-descent budgets — 8 levels per token for expressions, 2 for statements and
+    type expressions — and the loop budgets suffice for every input), no slice leaves the token array,
+    no range subtraction underflows, no operator conversion fails: `parser::parse` either returns a
+    program or stops with the one `expect("Parser cannot fail")` of `parser::parse`. -/
+theorem parse_never_panics (toks : List Token) :
+    (∃ p, Parse.parse toks = .ok p) ∨ Parse.parse toks = .error ⟨"expect:Parser cannot fail"⟩ := by
+  have h := Total.program_safe { toks := toks.toArray, change := ⟨0, 0, toks.length⟩ }
+  have hparse : Parse.parse toks =
+      match Parse.parseProgram { toks := toks.toArray, change := ⟨0, 0, toks.length⟩ } none { pos := 0 } with
+      | .ok _ p => .ok p
+      | .err _ _ => .error ⟨"expect:Parser cannot fail"⟩
+      | .panic e => .error e := rfl
+  rw [hparse]
+  cases hr : Parse.parseProgram { toks := toks.toArray, change := ⟨0, 0, toks.length⟩ } none { pos := 0 } with
+  | ok s p => exact Or.inl ⟨p, rfl⟩
+  | err k s => exact Or.inr rfl
+  | panic e => exact absurd hr (h.np e)
 
 end Spl.C02
